@@ -128,8 +128,10 @@ async def main(args):
             pass
     stall_up = await TcpOrigin(stall_upstream, host="127.0.0.1").start()
     rules = [{"filter": "request.target.port == 9101", "target": "hstall"}, {"filter": "request.target.port == 9102", "target": "sstall"},
-             {"filter": "request.target.port == 9103", "target": "tstall"}, {"target": "direct"}]
-    connectors = [{"name": "direct"},
+             {"filter": "request.target.port == 9103", "target": "tstall"},
+             # a balancer only forwards TCP: UDP requests routed to it are refused as an unsupported feature
+             {"filter": "request.target.port == 9104 || request.feature == \"UdpForward\" && request.listener == \"socks\"", "target": "lbtcp"}, {"target": "direct"}]
+    connectors = [{"name": "direct"}, {"name": "lbtcp", "type": "loadbalance", "connectors": ["direct"], "algo": "rr"},
                   {"name": "hstall", "type": "http", "server": "127.0.0.1", "port": stall_up.port},
                   {"name": "sstall", "type": "socks", "server": "127.0.0.1", "port": stall_up.port},
                   {"name": "tstall", "type": "http", "server": "localhost", "port": stall_up.port, "tls": {"insecure": True}}]
@@ -296,6 +298,8 @@ async def main(args):
                    (P["http"], b"CONNECT 127.0.0.1:1 HTTP/1.1\r\nProxy-Protocol: sctp\r\n\r\n"),
                    (P["http"], b"CONNECT 127.0.0.1:1 HTTP/1.1\r\nProxy-Protocol: udp\r\nProxy-Channel: carrier-pigeon\r\n\r\n"),
                    (P["http"], b"CONNECT not-an-authority HTTP/1.1\r\n\r\n"),
+                   (P["http"], b"CONNECT 127.0.0.1:9104 HTTP/1.1\r\nProxy-Protocol: udp\r\n\r\n"),              # feature the chosen connector lacks
+                   (P["socks"], bytes([5, 1, 0, 5, 3, 0, 1, 127, 0, 0, 1]) + (9104).to_bytes(2, "big")),      # UDP ASSOCIATE, same
                    (P["socks"], bytes([5, 1, 0, 5, 2, 0, 1, 127, 0, 0, 1, 0, 80])),      # BIND
                    (P["socks"], bytes([5, 1, 0, 5, 9, 0, 1, 127, 0, 0, 1, 0, 80])),      # unknown command
                    (P["socksauth"], bytes([5, 1, 2, 1, 1]) + b"x" + bytes([1]) + b"y"),  # wrong password
